@@ -81,6 +81,68 @@ def _fields_from_state(fi) -> list:
     return [got.get(i, "?") for i in range(max(got) + 1)] if got else []
 
 
+def _ancestors(node, stop):
+    cur = getattr(node, "_parent", None)
+    while cur is not None and cur is not stop:
+        yield cur
+        cur = getattr(cur, "_parent", None)
+
+
+def _is_container_test(a_, var: str) -> bool:
+    return isinstance(a_, ast.Call) and call_name(a_) == "isinstance" and len(a_.args) == 2 and norm(a_.args[0]) == var and norm(a_.args[1]) == "UnitsContainer"
+
+
+def _only_containers_of(gen, source: str):
+    """`gen` is the first generator of a comprehension: `for C in <source> if isinstance(C, UnitsContainer)` with no
+    other filter -> the name C; else None."""
+    if not (isinstance(gen.target, ast.Name) and norm(gen.iter) == source):
+        return None
+    conds = [ct for i in gen.ifs for ct in shape.conjuncts(i, "t")]
+    if len(conds) == 1 and conds[0][1] is True and _is_container_test(conds[0][0], gen.target.id):
+        return gen.target.id
+    return None
+
+
+def _walks_every_name_of_every_container(call, fn, source: str) -> bool:
+    """The argument N of `parse_units(N)` ranges over every name of every element of the parameter `source` that is a
+    UnitsContainer - whatever the iteration idiom:
+       for C in source: if isinstance(C, UnitsContainer): for N in C: ...
+       for N in chain.from_iterable(C for C in source if isinstance(C, UnitsContainer)): ...      (also chain(*...))
+       for N in (n for C in source if isinstance(C, UnitsContainer) for n in C): ...
+    (temporaries holding the iterables are looked through)."""
+    if not (len(call.args) == 1 and isinstance(call.args[0], ast.Name)):
+        return False
+    fors, cur = [], getattr(call, "_parent", None)
+    while cur is not None and cur is not fn:
+        if isinstance(cur, ast.For):
+            fors.append(cur)
+        cur = getattr(cur, "_parent", None)
+    mine = [l for l in fors if norm(l.target) == call.args[0].id]
+    if not mine:
+        return False
+    inner = mine[0]
+    outer = [l for l in fors if l is not inner and isinstance(l.target, ast.Name) and norm(l.iter) == source]
+    # nested loops: the inner loop ranges over the variable of a loop over `source`, tested to be a container
+    for o in outer:
+        if norm(inner.iter) == o.target.id and shape.holds_at(call, fn, lambda a_: _is_container_test(a_, o.target.id), True):
+            return True
+    it = shape.resolve(inner.iter, fn)
+    comp = (ast.GeneratorExp, ast.ListComp)
+    # flattening of the filtered arguments
+    for pt in ("chain.from_iterable(_G)", "itertools.chain.from_iterable(_G)", "chain(*_G)", "itertools.chain(*_G)"):
+        if shape.match(pt, it) is not None:
+            g = it.args[0].value if isinstance(it.args[0], ast.Starred) else it.args[0]
+            if isinstance(g, comp) and len(g.generators) == 1:
+                c = _only_containers_of(g.generators[0], source)
+                return c is not None and norm(g.elt) == c
+    # one comprehension with two generators
+    if isinstance(it, comp) and len(it.generators) == 2:
+        c = _only_containers_of(it.generators[0], source)
+        g2 = it.generators[1]
+        return c is not None and norm(g2.iter) == c and not g2.ifs and isinstance(g2.target, ast.Name) and norm(it.elt) == g2.target.id
+    return False
+
+
 def run(ck, ix, tier):
     ck.rule("G-PROV", "serialised fields are exactly the constructor's fields, in order")
     # ------------------------------------------------------------ (a) exceptions
@@ -152,27 +214,28 @@ def run(ck, ix, tier):
     fnode = _shu.inline_helpers(ix, f)        # an extracted private helper (e.g. _register_unit_names(arg)) is looked through
     cfg = CFG(fnode)
     ctor = nodes_with(cfg, lambda x: isinstance(x, ast.Call) and isinstance(x.func, ast.Name) and x.func.id == "cls")
-    loop = [n.id for n in cfg.nodes if n.kind == "for" and norm(n.ast) == "args"]
+    # by role: the loop(s) that walk the arguments = the outermost loop around each parse_units call whose iterable derives
+    # from the parameter `args`
+    src_ = f.node.args.vararg.arg if f.node.args.vararg else "args"
+    loop = []
+    for pc_ in [x for x in ast.walk(fnode) if isinstance(x, ast.Call) and call_name(x) == "parse_units"]:
+        outer_, cur_ = None, getattr(pc_, "_parent", None)
+        while cur_ is not None and cur_ is not fnode:
+            if isinstance(cur_, ast.For):
+                outer_ = cur_
+            cur_ = getattr(cur_, "_parent", None)
+        if outer_ is not None and any(isinstance(y, ast.Name) and y.id == src_ for y in ast.walk(shape.resolve(outer_.iter, fnode))):
+            loop += [n.id for n in cfg.nodes if n.kind == "for" and n.ast is outer_.iter]
     parse = nodes_with(cfg, lambda x: isinstance(x, ast.Call) and call_name(x) == "parse_units" and "application_registry" in norm(x.func))
     ck.check(bool(parse), "G-DOM", "_unpickle|unit-names-parsed", f.loc(), "unit names are parsed with the application registry", "_unpickle no longer parses the unit names with the application registry (prefixed units would be missing)")
     for c in live(cfg, ctor):
         p = undominated(cfg, [c], loop)
-        ck.check(bool(loop) and p is None, "G-DOM", "_unpickle|parse-before-construct", f.loc(cfg.nodes[c].ast), "every UnitsContainer argument is walked before the object is constructed", "the object is constructed before its unit names were registered", witness(cfg, p))
+        inside = any(isinstance(anc, (ast.For, ast.While)) for anc in _ancestors(cfg.nodes[c].ast, fnode))       # built while still walking
+        ck.check(bool(loop) and p is None and not inside, "G-DOM", "_unpickle|parse-before-construct", f.loc(cfg.nodes[c].ast), "every UnitsContainer argument is walked before the object is constructed", "the object is constructed before its unit names were registered", witness(cfg, p))
         built = [x for x in ast.walk(cfg.nodes[c].ast) if isinstance(x, ast.Call) and isinstance(x.func, ast.Name) and x.func.id == "cls"]
         ck.check(bool(built) and all(shape.match("cls(*args)", x) is not None for x in built) and any(isinstance(v, ast.Call) and norm(v.func) == "cls" for v in (shape.resolve(r.value, fnode) for r in shape.returns_of(fnode))), "G-PROV", "_unpickle|all-fields-forwarded", f.loc(cfg.nodes[c].ast), "cls(*args)", f"`{cfg.nodes[c].text()}` does not forward all pickled fields")
-    is_uc = lambda a_: isinstance(a_, ast.Call) and call_name(a_) == "isinstance" and len(a_.args) == 2 and norm(a_.args[1]) == "UnitsContainer"
     pcalls = [x for x in ast.walk(fnode) if isinstance(x, ast.Call) and call_name(x) == "parse_units"]
-    okw = bool(pcalls)
-    for x in pcalls:
-        # parse_units(name) with name ranging over a container argument that was tested to be a UnitsContainer
-        fors = []
-        cur = getattr(x, "_parent", None)
-        while cur is not None:
-            if isinstance(cur, ast.For):
-                fors.append(cur)
-            cur = getattr(cur, "_parent", None)
-        okw = okw and len(fors) >= 2 and norm(fors[0].target) == norm(x.args[0]) and norm(fors[-1].iter) == "args" and norm(fors[0].iter) == norm(fors[-1].target) \
-            and _shu.holds_at(x, fnode, lambda a_: is_uc(a_) and norm(a_.args[0]) == norm(fors[0].iter), True)
+    okw = bool(pcalls) and all(_walks_every_name_of_every_container(x, fnode, src_) for x in pcalls)
     ck.check(okw, "G-DOM", "_unpickle|every-name-of-every-container", f.loc(), "every name of every UnitsContainer argument", "_unpickle no longer walks every name of every UnitsContainer argument")
     # every name is parsed unconditionally: whether the registry still knows a prefixed unit is the registry's business
     # (its tables change with contexts); a guard derived from a cache or from a membership test can go stale
